@@ -116,6 +116,9 @@ func (prop) Generate(rng *core.Rand, tier string, emit func(string)) {
 	for c := 0; c < n/8; c++ {
 		genMap(rng.Fork(), emit)
 	}
+	for c := 0; c < n/8; c++ {
+		genHdr(rng.Fork(), emit)
+	}
 	for c := 0; c < n; c++ {
 		var sb strings.Builder
 		np := rng.Intn(9)
@@ -264,6 +267,9 @@ func (prop) Run(line string) core.Outcome {
 	}
 	if len(f) == 5 && f[0] == "httprw" {
 		return runRewrite(line, f)
+	}
+	if len(f) == 17 && f[0] == "httphdr" {
+		return runHdr(line, f)
 	}
 	if len(f) == 17 && f[0] == "httpmap" {
 		return runMap(line, f)
